@@ -21,6 +21,7 @@ TLogEv == /\ More /\ TEv.e = "log" /\ pc = "walk" /\ todo # <<>> /\ Head(todo) \
           /\ TEv.forged = (Head(todo) = "F") /\ Walk /\ Adv(1)
 \* batches that are neither log nor pointer are walked silently
 TWalkData == pc = "walk" /\ todo # <<>> /\ Head(todo) \notin {"L", "F", "E", "P"} /\ Walk /\ UNCHANGED <<tid, l>>
+TRetry == More /\ TEv.e = "retry" /\ Retry /\ Adv(1)
 TFetchOk == pc = "fetch" /\ ShaOk /\ store.bytes # "damaged" /\ Fetch /\ pc' = "walk" /\ UNCHANGED <<tid, l>>
 TReject == /\ More /\ TEv.e = "reject"
            /\ \/ (pc = "fetch" /\ Fetch)
@@ -30,6 +31,7 @@ TReject == /\ More /\ TEv.e = "reject"
            /\ Adv(1)
 TDeliver == /\ More /\ TEv.e = "deliver" /\ Finish
             /\ Last(log').e = "deliver" /\ Last(log').what = TEv.what /\ Last(log').logs = TEv.logs /\ TEv.logs_ok
+            /\ TEv.md_ok
             /\ Adv(1)
 \* inline delivery: the cycle's log events, then the deliver event
 TInline == /\ pc = "inline" /\ Inline
@@ -37,7 +39,7 @@ TInline == /\ pc = "inline" /\ Inline
                 /\ l + k - 1 <= Len(TLog)
                 /\ \A j \in 0..(k - 1) : TLog[l + j] = log'[Len(log) + 1 + j]
                 /\ Adv(k)
-TraceNext == TInline \/ TProduce \/ TTamper \/ TLogEv \/ TWalkData \/ TFetchOk \/ TReject \/ TDeliver
+TraceNext == TRetry \/ TInline \/ TProduce \/ TTamper \/ TLogEv \/ TWalkData \/ TFetchOk \/ TReject \/ TDeliver
 TraceSpec == TraceInit /\ [][TraceNext]_tvars
 
 Progress == TLCSet(tid, IF TLCGet(tid) < l THEN l ELSE TLCGet(tid))
